@@ -110,10 +110,31 @@ def own_output_case(rng, fmt):
     return cs
 
 
+BOUNDARY_SPANS = [(0, 2000000), (1, 2000001), (39999, 2000000), (40000, 3000000), (0, 30000), (0, 39999),
+                  (40000, 70000), (999, 1001), (3599999999, 3600000001), (86399000000, 86399999999)]
+
+
+def boundary_cases(rng):
+    """every non-SCC writer x first-cue spans on the frame / millisecond / hour boundaries (incl. a cue that lies
+    inside MicroDVD frame 0 and a cue shorter than one frame), followed by an ordinary second cue"""
+    from pycaption import CaptionSet, CaptionList
+    out = []
+    for fmt in WRITERS:
+        if fmt[0] == "SCC":
+            continue
+        for (s, e) in BOUNDARY_SPANS:
+            for text in ("hello", "25", "7 up"):
+                caps = [gens.build_caption(s, e, [text]), gens.build_caption(e + 5000000, e + 7000000, ["second cue"])]
+                out.append((fmt, CaptionSet({"en-US": CaptionList(caps)})))
+    return out
+
+
 def run_own_output(ctx, res, n):
+    cases = boundary_cases(ctx.rng)
     for i in range(n):
         fmt = WRITERS[i % len(WRITERS)]
-        cs = own_output_case(ctx.rng, fmt)
+        cases.append((fmt, own_output_case(ctx.rng, fmt)))
+    for fmt, cs in cases:
         name, W, R = fmt
         out = impl.call(lambda: W().write(cs))
         res["evaluations"] += 1
@@ -131,8 +152,11 @@ def run_own_output(ctx, res, n):
         res["nontrivial"].add(("own", name, doc))
         res["distribution"]["own_" + name] = res["distribution"].get("own_" + name, 0) + 1
         if not good:
+            first = cs.get_captions(cs.get_languages()[0])[0]
+            shape = ("microdvd-cue-inside-frame-0" if name == "MicroDVD" and first.start * 25 // 10**6 == 0
+                     and first.end * 25 // 10**6 == 0 else "other")
             res["violations"].append({
-                "kind": "own-output-not-recognised", "fmt": name,
+                "kind": "own-output-not-recognised:" + shape, "fmt": name, "shape": shape,
                 "what": f"{name} writer output detected as {det!r} / read {rd!r}",
                 "input": gens.describe_capset(cs), "document": doc, "replay": "own", "stream": "D"})
 
